@@ -177,7 +177,7 @@ TR_CMP(int32_t, int32_t, wchar_t)
 const char *TRIM_CHARSET; size_t TRIM_L, TRIM_R;
 _Bool __CPROVER_uninterpreted_member(char c);
 #define IN_SET(c) ((c) != 0 && __CPROVER_uninterpreted_member(c))
-const char *TRF_PROBE; const char *TRF_S, *TRF_RET; size_t TRF_N; char TRF_C; int TRF_CALLS;   /* arguments / result of the last call, for forwarding postconditions */
+const char *TRF_PROBE; const char *TRF_S, *TRF_RET; size_t TRF_N; char TRF_C; unsigned TRF_CALLS;   /* arguments / result of the last call, for forwarding postconditions */
 const char *tr_find_char(const char *s, size_t n, char c) {
     __CPROVER_assert(n == 0 || __CPROVER_r_ok(s, n), "tr_find.precondition: range readable for n elements");
     size_t k = nondet_size_t();
@@ -202,7 +202,7 @@ const char *tr_find_char(const char *s, size_t n, char c) {
     return s + k;
 }
 /* length: index of the first 0 (the string must be NUL-terminated inside its object) */
-const void *TRL_S; size_t TRL_RET; int TRL_CALLS;   /* argument / result of the last length() call */
+const void *TRL_S; size_t TRL_RET; unsigned TRL_CALLS;   /* argument / result of the last length() call */
 #define TR_LEN(T, sfx) \
 size_t tr_length_##sfx(const T *s) { \
     size_t k = nondet_size_t(); \
